@@ -243,13 +243,13 @@ func gz(b []byte) []byte {
 // --- structured corruption -------------------------------------------------
 
 type Corrupt struct {
-	Kind  string `json:"kind"`  // len | tag | cut | flip | trunc | insert
-	Level int    `json:"level"` // message level for len/tag/cut
-	Msg   int    `json:"msg"`
-	Item  int    `json:"item"`
-	Val   uint64 `json:"val,omitempty"`
-	Pad   int    `json:"pad,omitempty"`
-	Pos   int    `json:"pos,omitempty"` // per-mille position for flip/trunc/insert
+	Kind  string      `json:"kind"`  // len | tag | cut | flip | trunc | insert
+	Level int         `json:"level"` // message level for len/tag/cut
+	Msg   int         `json:"msg"`
+	Item  int         `json:"item"`
+	Val   uint64      `json:"val,omitempty"`
+	Pad   int         `json:"pad,omitempty"`
+	Pos   int         `json:"pos,omitempty"` // per-mille position for flip/trunc/insert
 	Data  model.Bytes `json:"data,omitempty"`
 }
 
